@@ -16,7 +16,9 @@ const ZONES: [&str; 20] = ["America/New_York", "Europe/Berlin", "Asia/Tokyo", "A
     "Asia/Kolkata", "Europe/London", "Pacific/Auckland", "America/Los_Angeles", "UTC", "Europe/Paris", "US/Eastern", "Pacific/Apia",
     "America/Indiana/Indianapolis", "America/Indiana/Knox", "America/Argentina/Buenos_Aires", "America/Argentina/San_Luis", "America/North_Dakota/Center", "America/Kentucky/Monticello"];
 const FIXED: [&str; 3] = ["+05:30", "-08:00", "+00:00"];
-const BAD: [&str; 3] = ["Nowhere/Land", "Mars/Olympus_Mons", "Europe/Atlantis"];
+// (the last four name directories of the database, or a file with something below it: a failed lookup of "Europe" must not
+// change what a later lookup of a zone below it answers)
+const BAD: [&str; 7] = ["Nowhere/Land", "Mars/Olympus_Mons", "Europe/Atlantis", "Europe", "America/Indiana", "America/Argentina", "UTC/Nowhere"];
 const FIELDS: [&str; 13] = ["year", "month", "day", "hour", "minute", "second", "millisecond", "dayOfWeek", "dayOfYear", "daysInMonth", "inLeapYear", "hoursInDay", "offsetSeconds"];
 
 /// an instant between 1972 and 2036 that is not on a whole second (so never exactly on a transition).
